@@ -33,6 +33,8 @@ var families = []string{
 	"nested-block-comment",       // /* /* */ */
 	"placeholder-lookalike",      // user text that looks like __STR_n__ / __IDENT_n__
 	"dollar-quote",               // $$…$$, $tag$…$tag$, stray `$`
+	"dollar-quote-tag",           // $tag$ replacement scans with every short tag (digits / underscore / non-ASCII in every position)
+	"dollar-quote-nonascii-tag",  // the same with a non-ASCII letter in the tag (DuckDB accepts it, the masker does not)
 	"query-function",             // query('<sql text>') / query_table('<name>'): SQL handed over inside a string literal
 	"denylist-gap",               // table functions of the linked DuckDB that are not on the denylist
 	"header-glued-from",          // header set; FROM glued to a preceding digit (single-table fast path)
@@ -51,6 +53,7 @@ type gen struct {
 	r          *vh.Rand
 	root       string
 	deny       []string // file-reading function names (from factgen when available)
+	thorough   bool
 	tableFuncs []string // every table function / table macro of the linked DuckDB
 }
 
@@ -283,6 +286,44 @@ func (g *gen) grid() []stmt {
 		add("denylist-gap", fn, "", "SELECT * FROM "+fn+"('"+sp+"')")
 		add("denylist-gap", fn, "", "SELECT * FROM "+fn+"(['"+sp+"'])")
 		add("denylist-gap", fn, allowedDB, "SELECT b.* FROM cpu a, "+fn+"('"+sp+"') b")
+	}
+
+	// --- dollar-quote tags: every tag of length 0..3 (and a sample of length 4) over letters / digits /
+	// underscore / a non-ASCII letter, as a replacement scan in table position. The path avoids `/*` and
+	// `--` so that it survives comment stripping when the masker does NOT recognise the tag.
+	{
+		file := g.root + "/" + secretDB + "/cpu/2024/01/01/00/part0.parquet"
+		alpha := []string{"a", "T", "_", "1", "9", "é"}
+		tags := []string{""}
+		level := []string{""}
+		for l := 1; l <= 4; l++ {
+			var next []string
+			for _, p := range level {
+				for _, ch := range alpha {
+					next = append(next, p+ch)
+				}
+			}
+			level = next
+			if l < 4 || g.thorough {
+				tags = append(tags, level...)
+			} else {
+				for i := 0; i < 240; i++ {
+					tags = append(tags, level[g.r.Intn(len(level))])
+				}
+				tags = append(tags, "a2b_", "T0T0", "_9_9", "ab1c", "a1é_")
+			}
+		}
+		for _, tg := range tags {
+			lit := "$" + tg + "$" + file + "$" + tg + "$"
+			fam := "dollar-quote-tag"
+			if !isASCII(tg) {
+				fam = "dollar-quote-nonascii-tag"
+			}
+			add(fam, "from", "", "SELECT canary FROM "+lit)
+			add(fam, "comma", "", "SELECT b.canary FROM "+okTable("")+" a, "+lit+" b")
+			add(fam, "subquery", allowedDB, "SELECT canary FROM (SELECT * FROM "+lit+") q")
+			add(fam, "cte", allowedDB, "WITH w AS (SELECT * FROM "+lit+") SELECT canary FROM w")
+		}
 	}
 
 	// --- lexical disguises: hide a live payload from the validator
